@@ -936,3 +936,64 @@ func ruleJSN7(c *Ctx) {
 	}
 	c.Check(n >= 1 && okAll, construct, p.Pos(fn.Pos()), "stored value comes from unquoteString (raw text only when unquoting fails)", why+": escapes are not decoded, so a description written by the JSON translator with strconv.Quote (or any description containing \\\" or \\n) comes back with its backslashes")
 }
+
+func init() {
+	register("JSN-8", "every JSON rule is decoded into a fresh value (nothing carries over from the previous rule)", 2, ruleJSN8)
+}
+
+// JSN-8: encoding/json leaves fields that are absent from the input untouched. A decode target that lives across loop
+// iterations therefore keeps the previous element's values: a rule without "salience" or "desc" inherits them from its
+// predecessor instead of getting the defaults.
+func ruleJSN8(c *Ctx) {
+	p := c.P
+	n := 0
+	for _, name := range []string{"ParseJSONRule", "ParseJSONRuleset", "ParseRule"} {
+		root := p.Func("pkg", name)
+		if root == nil {
+			c.AnchorLost("pkg." + name)
+			continue
+		}
+		for fn := range c.reachableModuleFuncs([]*ssa.Function{root}, false) {
+			loops := naturalLoops(fn)
+			for _, ci := range callsIn(fn) {
+				cn := calleeName(ci)
+				if cn != "encoding/json.Unmarshal" && cn != "(*encoding/json.Decoder).Decode" {
+					continue
+				}
+				in := ci.(ssa.Instruction)
+				args := ci.Common().Args
+				target := args[len(args)-1]
+				if mi, ok := target.(*ssa.MakeInterface); ok {
+					target = mi.X
+				}
+				n++
+				construct := fmt.Sprintf("%s / %s decodes into a fresh value", fnName(fn), cn)
+				l := innermostLoopOf(loops, in.Block())
+				if l == nil {
+					c.OK(construct, p.InstrPos(in), "not in a loop: one decode per call")
+					continue
+				}
+				al, isAlloc := target.(*ssa.Alloc)
+				if !isAlloc {
+					c.Undecided(construct, p.InstrPos(in), "decode inside a loop into something that is not a local variable")
+					continue
+				}
+				if l.Blocks[al.Block()] {
+					c.OK(construct, p.InstrPos(in), "the target is allocated in the loop body: fresh per iteration")
+					continue
+				}
+				// reused variable: accepted only when it is reset to its zero value inside the loop before the decode
+				reset := false
+				for _, r := range *al.Referrers() {
+					if st, ok := r.(*ssa.Store); ok && st.Addr == ssa.Value(al) && l.Blocks[st.Block()] && isZeroValue(st.Val) && st.Block().Dominates(in.Block()) {
+						reset = true
+					}
+				}
+				c.Check(reset, construct, p.InstrPos(in), "the reused target is zeroed before each decode", "the decode target is declared outside the loop and reused: fields absent from one rule object (salience, desc, ...) keep the values of the previous rule instead of their defaults")
+			}
+		}
+	}
+	if n == 0 {
+		c.Fail("JSON rule decode sites", "-", "no json.Unmarshal / Decoder.Decode on the JSON rule path (anchor lost)")
+	}
+}
